@@ -104,13 +104,10 @@ impl FunctionExpression for DecodeLz4Fn {
             .map_resolve_with_default(ctx, || DEFAULT_PREPENDED_SIZE.clone())?
             .try_boolean()?;
 
-        let buffer_size: usize;
-        if let Ok(sz) = u32::try_from(buf_size) {
-            buffer_size = sz as usize;
-        } else {
-            // If the buffer size is too large, we default to a maximum size
-            buffer_size = usize::MAX;
-        }
+        // A negative or oversized buffer size cannot be allocated, so it is an error.
+        let buffer_size = u32::try_from(buf_size)
+            .map_err(|_| format!("buf_size must be between 0 and {}", u32::MAX))?
+            as usize;
         decode_lz4(value, buffer_size, prepended_size)
     }
 
